@@ -13,13 +13,13 @@ META = {
                  "statement; the reference semantics against the rendered Python pattern); differential oracle: each "
                  "generated Hy match against the rendered Python match statement on matching-biased subjects",
     "level_text": "Theorems in coq/Props/C08.v hold for every pattern of Hy's match sublanguage of any depth and every "
-                  "subject of any value domain: outside three listed constructs the emitted pattern matches exactly the "
-                  "subjects the reference says, with the same bindings (names mangled), and is one compile() accepts; a "
+                  "subject of any value domain: the emitted pattern matches exactly the subjects the reference says, with "
+                  "the same bindings (names mangled), and is one compile() accepts when the Hy pattern is well formed; a "
                   "match form evaluates to the result of the first case whose pattern matches and whose guard holds -- "
                   "guards compiling to statements are lifted into functions that the right case calls -- and to None "
-                  "otherwise. The full statement is REFUTED with three witnesses that reproduce on the implementation: "
-                  "class-pattern keywords are not mangled, the string literals \"None\"/\"True\"/\"False\" become invalid "
-                  "MatchSingleton nodes, and #* _ in a sequence pattern becomes a capture of '_'.",
+                  "otherwise. Three defects the first version refuted (class-pattern keywords not mangled, the string "
+                  "literals \"None\"/\"True\"/\"False\", #* _) were repaired in /repo (7ce654c, 05b9a7b, 24b6ab7); their "
+                  "reproducers run first from corpus/C08.",
     "level_note": "Trusted: Coq kernel; translator/ops_match.py (templates); Ops/PyMatch.v, the hand-written combinator "
                   "model of PEP 634 (validated against CPython's match statement on every generated pattern x subject); "
                   "Python closure semantics for the lifted guard functions (they read the case's bindings at call time); "
@@ -382,21 +382,6 @@ def canon_ppat(p):
     raise ValueError(type(p))
 
 
-def m_kwd_not_mangled(rec, params):
-    i = rec.get("input", {})
-    return isinstance(i, dict) and i.get("class") == "class-pattern-keyword-not-mangled"
-
-
-def m_singleton_string(rec, params):
-    i = rec.get("input", {})
-    return isinstance(i, dict) and i.get("class") == "string-literal-None-True-False"
-
-
-def m_star_wildcard(rec, params):
-    i = rec.get("input", {})
-    return isinstance(i, dict) and i.get("class") == "star-wildcard-in-sequence"
-
-
 def run(chk):
     chk.trusted = TRUSTED
     chk.assumptions = [
@@ -409,9 +394,6 @@ def run(chk):
         "a Hy match and the Python match statement agree if both return the same value, or both raise the same exception type "
         "(SyntaxError/ValueError of compile() are one class: 'rejected')",
     ]
-    chk.matchers["c08_kwd_not_mangled"] = m_kwd_not_mangled
-    chk.matchers["c08_singleton_string"] = m_singleton_string
-    chk.matchers["c08_star_wildcard"] = m_star_wildcard
     chk.prove("Props/C08.v", ["Props/C08.vo", "Ops/PatternVal.vo"], [ops_match.translate])
     model_ok = all(o[1] for o in chk.obligations if o[0].startswith("coq cone"))
     hy = vlib.use_repo_in_process()
